@@ -25,7 +25,11 @@ pub enum COp { Poll { fresh: bool }, Set(u64), Get, Drop, Up,
                /// hold the write guard for a moment without writing / `subscribe()` and poll the new subscriber once
                HoldWrite, SubPoll,
                /// `n` rounds of `update(|v| v + 1)` followed by a poll of the thread's own subscriber / `n` rounds of clone, downgrade, upgrade, drop
-               UpdPoll(u64), Churn(u64) }
+               UpdPoll(u64), Churn(u64),
+               /// `n` rounds of `set(k)` followed by a poll of the thread's own subscriber
+               SetPoll(u64),
+               /// `n` rounds of `subscribe()` followed by the drop of the new subscriber
+               SubChurn(u64) }
 impl COp {
     fn text(&self) -> String {
         match self { COp::Poll { fresh: false } => "poll".into(), COp::Poll { fresh: true } => "pollf".into(), COp::Set(v) => format!("set:{v}"),
@@ -33,7 +37,7 @@ impl COp {
             COp::Upd(k) => format!("upd:{k}"),
             COp::NextRefs { until } => format!("nextrefs:{until}"), COp::SetSeq(n) => format!("setseq:{n}"),
             COp::HoldWrite => "holdwrite".into(), COp::SubPoll => "subpoll".into(),
-            COp::UpdPoll(n) => format!("updpoll:{n}"), COp::Churn(n) => format!("churn:{n}") }
+            COp::UpdPoll(n) => format!("updpoll:{n}"), COp::SetPoll(n) => format!("setpoll:{n}"), COp::Churn(n) => format!("churn:{n}"), COp::SubChurn(n) => format!("subchurn:{n}") }
     }
 }
 
@@ -148,10 +152,21 @@ fn worker(sh: Arc<Shared>, t: usize, op: COp, mut h: Handle, forced: bool, round
                 }
                 format!("{missed};{first}")
             }
+            (COp::SetPoll(n), Handle::Both(o, s, w)) => {
+                let mut missed = 0u64;
+                let mut first = String::new();
+                for k in 1..=*n {
+                    o.set(1000 + k);
+                    let r = poll_once(s, w);
+                    if r != format!("Ready({})", 1000 + k) { missed += 1; if first.is_empty() { first = format!("round {k}: poll answered {r}"); } }
+                }
+                format!("{missed};{first}")
+            }
             (COp::Churn(n), Handle::Clone(o)) => {
                 for _ in 0..*n { let c = o.clone(); let wk = c.downgrade(); let u = wk.upgrade(); drop(c); drop(u); drop(wk); }
                 "-".into()
             }
+            (COp::SubChurn(n), Handle::Clone(o)) => { for _ in 0..*n { let s = o.subscribe(); drop(s); } "-".into() }
             (COp::HoldWrite, Handle::Clone(o)) => {
                 { let g = o.write(); for _ in 0..2000 { std::hint::spin_loop(); } drop(g); }
                 o.update_if(|_| { for _ in 0..2000 { std::hint::spin_loop(); } false });
@@ -211,8 +226,8 @@ fn setup(p: &Program) -> Setup {
         handles.push(match op {
             COp::Poll { fresh } => { let (f, w) = flag_waker(); n_subs += 1; Handle::Sub(if *fresh { root.subscribe_reset() } else { root.subscribe() }, f, w) }
             COp::NextNow | COp::NextRefs { .. } => { let (f, w) = flag_waker(); n_subs += 1; Handle::Sub(root.subscribe(), f, w) }
-            COp::UpdPoll(_) => { let (_f, w) = flag_waker(); n_subs += 1; n_clones += 1; Handle::Both(root.clone(), root.subscribe(), w) }
-            COp::Set(_) | COp::Get | COp::Drop | COp::Sne(_) | COp::Shne(_) | COp::Upd(_) | COp::SetSeq(_) | COp::HoldWrite | COp::SubPoll | COp::Churn(_) => { n_clones += 1; Handle::Clone(root.clone()) }
+            COp::UpdPoll(_) | COp::SetPoll(_) => { let (_f, w) = flag_waker(); n_subs += 1; n_clones += 1; Handle::Both(root.clone(), root.subscribe(), w) }
+            COp::Set(_) | COp::Get | COp::Drop | COp::Sne(_) | COp::Shne(_) | COp::Upd(_) | COp::SetSeq(_) | COp::HoldWrite | COp::SubPoll | COp::Churn(_) | COp::SubChurn(_) => { n_clones += 1; Handle::Clone(root.clone()) }
             COp::Up => Handle::Weak(root.downgrade()),
         });
     }
@@ -291,10 +306,12 @@ fn finish(sink: &mut Sink, p: &Program, joined: Vec<(Handle, Vec<String>, Option
             (COp::Poll { .. }, Handle::Sub(mut s, f, w)) => {
                 let was_woken = f.0.load(Ordering::SeqCst);
                 if was_woken { woken.push(t as u64); }
+                let mut late: Vec<String> = vec![];
                 // C02: a task whose last poll was Pending and that was not woken must have nothing to receive
                 if results.last().map(|r| r == "Pending").unwrap_or(false) && !was_woken {
                     unwoken_pending.push(t);
                     let again = poll_once(&mut s, &w);
+                    if again.starts_with("Ready") { late.push(again.clone()); }
                     if again != "Pending" {
                         // not being told about the END of the stream is a failure of C03 as well
                         sink.oracle_fail(if again == "End" { "C02,C03,C01" } else { "C02,C04,C01" }, &format!("thread {t}: its last poll answered Pending, its waker was never woken, yet a further poll answers {again} (lost wakeup)"));
@@ -303,8 +320,15 @@ fn finish(sink: &mut Sink, p: &Program, joined: Vec<(Handle, Vec<String>, Option
                 // C04: a value is handed out together with the version it belongs to: when every written value is different,
                 // no subscriber receives the same value twice
                 let mut got: Vec<String> = results.iter().filter(|r| r.starts_with("Ready")).cloned().collect();
+                got.extend(late);
                 let fin = poll_once(&mut s, &w);
-                if fin.starts_with("Ready") { got.push(fin); }
+                if fin.starts_with("Ready") { got.push(fin.clone()); }
+                // C04 / C01 / C02: every store is announced: once the writers have finished, the last item a subscriber
+                // was handed (polling until Pending) is the final value — whenever that differs from the value it started with
+                // (`End`: the owners of the threads looked at before this one have been dropped by now; nothing to tell)
+                if value != p.init && !closed && fin != "End" && got.last() != Some(&format!("Ready({value})")) && !p.ops.iter().any(|o| matches!(o, COp::Drop)) {
+                    sink.oracle_fail("C04,C01,C02", &format!("thread {t}: the writers have finished with the value {value} (initially {}), the subscriber was handed {got:?} (polls: {results:?}, then {fin}) and is now Pending: a store was never announced", p.init));
+                }
                 let mut vals: Vec<u64> = p.ops.iter().filter_map(|o| match o { COp::Set(v) | COp::Sne(v) => Some(*v), _ => None }).collect();
                 vals.push(p.init);
                 let n0 = vals.len(); vals.sort(); vals.dedup();
@@ -339,6 +363,12 @@ fn finish(sink: &mut Sink, p: &Program, joined: Vec<(Handle, Vec<String>, Option
             (COp::SetSeq(_), Handle::Clone(_)) => { owners += 1; }
             (COp::HoldWrite, Handle::Clone(_)) => { owners += 1; }
             (COp::Churn(_), Handle::Clone(_)) => { owners += 1; }
+            (COp::SubChurn(_), Handle::Clone(_)) => { owners += 1; }
+            (COp::SetPoll(_), Handle::Both(..)) => {
+                owners += 1;
+                if let Some(r) = results.first() { let mut it = r.splitn(2, ';'); let missed: u64 = it.next().and_then(|x| x.parse().ok()).unwrap_or(0);
+                    if missed > 0 { sink.oracle_fail("C04,C01,C02", &format!("thread {t}: {missed} of its own set() calls were not announced to its own subscriber (the only writer; other threads only clone, subscribe and drop handles; first: {})", it.next().unwrap_or(""))); } }
+            }
             (COp::UpdPoll(_), Handle::Both(..)) => {
                 owners += 1;
                 if let Some(r) = results.first() { let mut it = r.splitn(2, ';'); let missed: u64 = it.next().and_then(|x| x.parse().ok()).unwrap_or(0);
@@ -386,7 +416,7 @@ fn finish(sink: &mut Sink, p: &Program, joined: Vec<(Handle, Vec<String>, Option
     let upds: Vec<u64> = p.ops.iter().filter_map(|o| if let COp::Upd(k) = o { Some(*k) } else { None }).collect();
     if !upds.is_empty() {
         // C04: no update closure's effect is lost (programs whose only writers are updates)
-        if !p.ops.iter().any(|o| matches!(o, COp::Set(_) | COp::Sne(_) | COp::Shne(_) | COp::SetSeq(_) | COp::UpdPoll(_))) && value != p.init + upds.iter().sum::<u64>() {
+        if !p.ops.iter().any(|o| matches!(o, COp::Set(_) | COp::Sne(_) | COp::Shne(_) | COp::SetSeq(_) | COp::UpdPoll(_) | COp::SetPoll(_))) && value != p.init + upds.iter().sum::<u64>() {
             sink.oracle_fail("C04", &format!("updates lost: initial value {} and update closures adding {upds:?} end on {value}", p.init));
         }
     } else if lhs != rhs && !written.is_empty() {
@@ -530,6 +560,9 @@ pub fn free_programs() -> Vec<(&'static str, Program)> {
         ("sne|sne|sne", Program { init: 1, ops: vec![COp::Sne(7), COp::Sne(7), COp::Sne(7)], extra_clones: 0 }),
         ("sne|set|poll", Program { init: 1, ops: vec![COp::Sne(7), COp::Set(7), pl(false)], extra_clones: 0 }),
         ("pollf|set|set.free", Program { init: 1, ops: vec![pl(true), COp::Set(5), COp::Set(6)], extra_clones: 0 }),
+        ("poll|set|churn|churn", Program { init: 1, ops: vec![pl(false), COp::Set(5), COp::Churn(40), COp::Churn(40)], extra_clones: 0 }),
+        ("poll|setseq|subchurn|churn", Program { init: 0, ops: vec![pl(false), COp::SetSeq(30), COp::SubChurn(60), COp::Churn(60)], extra_clones: 0 }),
+        ("setpoll|churn|churn|subchurn", Program { init: 0, ops: vec![COp::SetPoll(1500), COp::Churn(1500), COp::Churn(1500), COp::SubChurn(1500)], extra_clones: 0 }),
         ("holdwrite|subpoll", Program { init: 1, ops: vec![COp::HoldWrite, COp::SubPoll], extra_clones: 0 }),
         ("holdwrite|subpoll|subpoll", Program { init: 1, ops: vec![COp::HoldWrite, COp::SubPoll, COp::SubPoll], extra_clones: 0 }),
         ("updpoll|churn|churn|churn", Program { init: 0, ops: vec![COp::UpdPoll(1500), COp::Churn(1500), COp::Churn(1500), COp::Churn(1500)], extra_clones: 0 }),
